@@ -40,10 +40,18 @@ def run_verus(src_path, rlimit=None, seed=None, extra=None, timeout=1800):
     if extra:
         cmd += extra
     t0 = time.time()
+    # own process group, so that a timeout takes the solver children (z3) down with the driver
+    proc = subprocess.Popen(cmd, stdout=subprocess.PIPE, stderr=subprocess.PIPE, text=True, cwd=os.path.dirname(src_path), start_new_session=True)
     try:
-        p = subprocess.run(cmd, capture_output=True, text=True, timeout=timeout, cwd=os.path.dirname(src_path))
+        so, se = proc.communicate(timeout=timeout)
     except subprocess.TimeoutExpired:
-        raise Undecided("rlimit", f"verus timed out after {timeout}s on {src_path}")
+        try:
+            os.killpg(proc.pid, 9)
+        except OSError:
+            pass
+        proc.communicate()
+        raise Undecided("timeout", f"verus timed out after {timeout}s on {src_path}")
+    p = subprocess.CompletedProcess(cmd, proc.returncode, so, se)
     wall = time.time() - t0
     try:
         res = json.loads(p.stdout)
@@ -251,13 +259,26 @@ def labels_in(out):
     return labs
 
 
-def verify_unit(name, seed=None, rlimit=None, items=None, mutate=None, keep=True, twin=False):
+def verify_unit(name, seed=None, rlimit=None, items=None, mutate=None, keep=True, twin=False, wide=False, wide_fns=()):
     unit = load_unit(name)
+    if wide:
+        # second stage (see checker.run_units): the same extracted code and contracts, with the unit's further algebra axioms
+        # (associativity, sign laws ...) in scope inside the bodies of the functions whose obligations failed in the first stage,
+        # and nowhere else; bounded in wall-clock time because AC axioms can make Z3 diverge
+        unit = dict(unit)
+        bw = unit.get("broadcast_wide", [])
+        if bw and isinstance(bw[0], list):
+            # alternatives, narrowest first (wide = 1, 2, ...)
+            bw = bw[min(int(wide), len(bw)) - 1]
+        unit["_wide"] = {fn: list(bw) for fn in wide_fns}
+        unit["timeout"] = unit.get("wide_timeout", 240)
     out, info = assemble(unit, items=items, twin=twin)
     if mutate:
         mutate(out)
     os.makedirs(BUILD, exist_ok=True)
     suffix = "_twin" if twin else ("" if mutate is None else f"_mut{os.getpid()}")
+    if wide:
+        suffix += f"_wide{int(wide)}"
     keep_file = os.environ.get("VERIF_KEEP") == "1" or __name__ == "__main__"
     src = os.path.join(BUILD, f"{name}{suffix}.rs" if keep_file else f"{name}{suffix}_{os.getpid()}.rs")
     with open(src, "w") as f:
@@ -265,14 +286,16 @@ def verify_unit(name, seed=None, rlimit=None, items=None, mutate=None, keep=True
     # Z3's resource count for one query varies severalfold from run to run (functions share solver processes, scheduling
     # differs), so the budget is three times Verus' default unless the unit sets its own
     rl = rlimit or unit.get("rlimit") or 30
-    res, diags, wall, rc, stderr, cmd = run_verus(src, rlimit=rl, seed=seed, timeout=unit.get("timeout", 1800))
-    failures, notes = classify(unit, out, res, diags, stderr)
-    vr = res["verification-results"]
-    if not keep or not keep_file:
-        try:
-            os.remove(src)
-        except OSError:
-            pass
+    try:
+        res, diags, wall, rc, stderr, cmd = run_verus(src, rlimit=rl, seed=seed, timeout=unit.get("timeout", 900))
+        failures, notes = classify(unit, out, res, diags, stderr)
+        vr = res["verification-results"]
+    finally:
+        if not keep or not keep_file:
+            try:
+                os.remove(src)
+            except OSError:
+                pass
     return {
         "unit": name,
         "failures": failures,
